@@ -170,6 +170,14 @@ func c19e2eCheck(e cliEntry, f *pflag.Flag) (string, string) {
 			o0, o1 = "fresh process: "+f0, "fresh process: "+f1
 		}
 	}
+	if o0 == o1 && f.Value.Type() != "bool" {
+		// the other spelling of the same thing: `--flag value` (two arguments)
+		args3 := append(append([]string{}, e.Args...), "--"+f.Name, f.DefValue)
+		sp, r2 := cliExec(mcrt.Config{MapMode: mcrt.MapSorted}, args3, e.Stdin, e.Files, e.Out)
+		if o2 := verdictStr(r2) + " " + sp.String(); o2 != o0 {
+			o1 = "(given as two arguments `--" + f.Name + " " + f.DefValue + "`) " + o2
+		}
+	}
 	if o0 != o1 {
 		c, _ := c19resolve(e.Args)
 		return fmt.Sprintf("C19/behaviour/%s --%s", c.CommandPath(), f.Name),
